@@ -39,13 +39,70 @@ func (s *Sched) prepCases(cs []Case) {
 			continue
 		}
 		c.ptr = c.rv.Pointer()
+		st := s.chans[c.ptr]
+		if st == nil {
+			st = &chanState{keep: c.Ch}
+			s.chans[c.ptr] = st
+		}
+		c.st = st
 	}
+}
+
+func (s *Sched) register(t *thread) {
+	for i := range t.op.cases {
+		c := &t.op.cases[i]
+		if c.null || c.rv.Cap() != 0 {
+			continue
+		}
+		if c.Dir == RecvDir {
+			c.st.recvW = append(c.st.recvW, waiter{t, i})
+		} else {
+			c.st.sendW = append(c.st.sendW, waiter{t, i})
+		}
+	}
+}
+
+func dropWaiter(ws []waiter, t *thread) []waiter {
+	k := 0
+	for _, w := range ws {
+		if w.t != t {
+			ws[k] = w
+			k++
+		}
+	}
+	return ws[:k]
+}
+
+func (s *Sched) unregister(t *thread) {
+	for i := range t.op.cases {
+		c := &t.op.cases[i]
+		if c.null || c.st == nil {
+			continue
+		}
+		if c.Dir == RecvDir {
+			c.st.recvW = dropWaiter(c.st.recvW, t)
+		} else {
+			c.st.sendW = dropWaiter(c.st.sendW, t)
+		}
+	}
+}
+
+func (s *Sched) chanState(ch any) *chanState {
+	rv := reflect.ValueOf(ch)
+	p := rv.Pointer()
+	st := s.chans[p]
+	if st == nil {
+		st = &chanState{keep: ch}
+		s.chans[p] = st
+	}
+	return st
 }
 
 func (s *Sched) chanOp(site string, hasDefault bool, cs []Case) Token {
 	t := s.cur
 	s.prepCases(cs)
 	t.op = op{kind: opChan, site: site, cases: cs, hasDefault: hasDefault}
+	s.register(t)
 	s.block(t)
 	k := Token{I: t.op.chosen, t: t}
 	if t.partnerNow {
@@ -121,7 +178,7 @@ func Close(ch any, site string) {
 	t.op = op{kind: opResume, site: site}
 	s.block(t)
 	rv.Close() // panics like the native close on nil / closed channels
-	s.closed[rv.Pointer()] = ch
+	s.chanState(ch).closed = true
 }
 
 // MarkClosed closes ch from scheduler or harness context without a scheduling point.
@@ -135,11 +192,12 @@ func MarkClosed(ch any) {
 	if s.aborting {
 		return
 	}
-	if _, ok := s.closed[rv.Pointer()]; ok {
+	st := s.chanState(ch)
+	if st.closed {
 		return
 	}
 	rv.Close()
-	s.closed[rv.Pointer()] = ch
+	st.closed = true
 }
 
 // IsClosed reports whether ch was closed through the scheduler.
@@ -148,6 +206,6 @@ func IsClosed(ch any) bool {
 	if s == nil {
 		return false
 	}
-	_, ok := s.closed[reflect.ValueOf(ch).Pointer()]
-	return ok
+	st := s.chans[reflect.ValueOf(ch).Pointer()]
+	return st != nil && st.closed
 }
